@@ -12,8 +12,11 @@ elif git apply --3way "$patch" >/dev/null 2>&1 || { git checkout -q HEAD -- . ; 
 else
   echo "PATCH-DOES-NOT-APPLY $patch"; exit 3
 fi
+cp /verif/evidence/$prop.json /tmp/try_mutant.evidence.$prop 2>/dev/null
 /verif/check "$prop" "$@" 2>/tmp/try_mutant.err
 rc=$?
+# the evidence file describes the unchanged tree: put it back
+cp /tmp/try_mutant.evidence.$prop /verif/evidence/$prop.json 2>/dev/null
 git checkout -q HEAD -- .
 git reset -q
 echo "exit=$rc"
